@@ -227,3 +227,23 @@ def nan_buffers(P, R, rule, modules, floor=1):
                     R.abstain(rule, f, c, f'cannot classify dtype `{norm(dt)}` of a NaN-initialised buffer', construct=norm(c))
     R.floor(rule, 'NaN-initialised result buffers', n, floor)
     return n
+
+
+def no_fastmath(P, R, rule, modules, floor=1):
+    """Kernels whose contract involves NaN (skipped non-finite coordinates, NaN = 'no value', inert NaN boxes) must not be
+    compiled with numba fastmath: LLVM may then assume no NaN/Inf and fold isfinite/isnan/NaN comparisons away."""
+    n = 0
+    for m in P.mods.values():
+        if not any(m.name == x or m.name.startswith(x + '.') for x in modules):
+            continue
+        for f in m.funcs.values():
+            fl = f.tags.get('jit')
+            if fl is None:
+                continue
+            n += 1
+            fm = fl.get('fastmath', False)
+            R.check(not fm, rule, f, None, 'the kernel is compiled with IEEE semantics (no fastmath): NaN tests and comparisons mean what they say',
+                    f'{f.qualname} is compiled with fastmath={fm!r}: the compiler may assume there are no NaN/Inf values, so isfinite/isnan guards and NaN comparisons are folded away '
+                    '(a NaN coordinate poisons the result instead of being skipped)', construct=f'{f.qualname} jit flags')
+    R.floor(rule, 'jit kernels whose flags were inspected', n, floor)
+    return n
